@@ -29,7 +29,7 @@ BUDGET = {
     'thorough': dict(examples=80000, time_s=2400, fuzz=dict(workers=8, runs=6000, max_s=300)),
 }
 
-OPS = ['cols', 'cols', 'rows', 'to_rfi', 'to_mef', 'start_end', 'high_low', 'one_event', 'one_channel', 'read_time', 'no_channels']
+OPS = ['cols', 'cols', 'cols', 'rows', 'to_rfi', 'to_mef', 'start_end', 'high_low', 'one_event', 'one_channel', 'read_time', 'no_channels']
 DUPS = ['copy', 'copy.copy', 'deepcopy', 'view'] + ['pickle%d' % p for p in range(6)]
 
 
